@@ -51,7 +51,7 @@ impl Check for GraphCheck {
     fn assumptions(&self) -> Vec<String> {
         vec![
             "reference = same block code driven in topological order on large streams until nothing moves".into(),
-            "diamond branch skew below capacity/4".into(),
+            "diamond branch skew below capacity/4; packets at most half the stream capacity (VecToStream writes a vector in one piece)".into(),
         ]
     }
     fn real_vs_stub(&self) -> Value {
